@@ -88,6 +88,17 @@ func (sh *Shared) newEngine() *Engine {
 		}
 	}
 	e.comp("alloc", "Int")
+	// lock ghosts exist from the start so that every state carries them
+	for _, n := range []string{"held", "rheld"} {
+		if g, ok := sh.specs.Ghosts[n]; ok {
+			e.comp("ghost$"+n, g.Sort)
+		}
+	}
+	for _, ls := range sh.specs.LockSets {
+		if g, ok := sh.specs.Ghosts[ls.Ghost]; ok {
+			e.comp("ghost$"+ls.Ghost, g.Sort)
+		}
+	}
 	return e
 }
 
@@ -114,6 +125,7 @@ type Options struct {
 	NoBatch  bool
 	KeepSMT  bool
 	Kinds    map[string]bool // if non-nil, only these obligation kinds are generated as obligations... (filter at report)
+	Want     func(ob *Obligation) bool // if non-nil, obligations it rejects are not solved (they stay assumptions)
 }
 
 func (sh *Shared) verifyFunc(fn *ssa.Function, opt Options) (res *FuncResult) {
@@ -239,6 +251,54 @@ func (sh *Shared) verifyFunc(fn *ssa.Function, opt Options) (res *FuncResult) {
 				return
 			}
 			fr.obligeAt(outReach, "post", labelOr(c), t, c.Src)
+		}
+	}
+	// ghost frame: a ghost component not listed in modifies must be restored at exit
+	if sp != nil && sp.HasMod && !e.modAll {
+		var compNames []string
+		for c := range e.compSort {
+			compNames = append(compNames, c)
+		}
+		sort.Strings(compNames)
+		for _, c := range compNames {
+			if !strings.HasPrefix(c, "ghost$") {
+				continue
+			}
+			listed := false
+			for _, m := range e.modTargets {
+				if m.comp == c {
+					listed = true
+				}
+			}
+			fin, ok := outSt.comps[c]
+			if listed || !ok {
+				continue
+			}
+			ini := e.get(fr.entry, c)
+			if fin != ini {
+				fr.obligeAt(outReach, "ghostframe", strings.TrimPrefix(c, "ghost$"), "(= "+fin+" "+ini+")", "")
+			}
+		}
+	}
+	// lock balance: with lockset checking on, every function restores the lock state unless it declares otherwise
+	if opt.Guards && !(sp != nil && sp.HasMod) {
+		var compNames []string
+		for c := range e.compSort {
+			compNames = append(compNames, c)
+		}
+		sort.Strings(compNames)
+		for _, c := range compNames {
+			if !e.isLockGhost(c) {
+				continue
+			}
+			fin, ok := outSt.comps[c]
+			if !ok {
+				continue
+			}
+			ini := e.get(fr.entry, c)
+			if fin != ini {
+				fr.obligeAt(outReach, "lockbalance", strings.TrimPrefix(c, "ghost$"), "(= "+fin+" "+ini+")", "")
+			}
 		}
 	}
 	// vacuity guards
@@ -414,6 +474,10 @@ func solveAll(sc *Script, tag string, opt Options) {
 	os.MkdirAll(opt.TmpDir, 0755)
 	pending := map[int]bool{}
 	for i := range sc.obls {
+		if opt.Want != nil && !sc.obls[i].Cover && !sc.obls[i].Canary && !opt.Want(sc.obls[i]) {
+			sc.obls[i].Status = "skipped"
+			continue
+		}
 		pending[i] = true
 	}
 	if !opt.NoBatch {
@@ -426,6 +490,13 @@ func solveAll(sc *Script, tag string, opt Options) {
 			order[i] = i
 		}
 		sort.SliceStable(order, func(a, b int) bool { return sc.obls[order[a]].At < sc.obls[order[b]].At })
+		var kept []int
+		for _, oi := range order {
+			if pending[oi] {
+				kept = append(kept, oi)
+			}
+		}
+		order = kept
 		for _, oi := range order {
 			ob := sc.obls[oi]
 			for ; li < ob.At; li++ {
